@@ -7,6 +7,7 @@ import (
 	"os"
 	"time"
 
+	"github.com/go-git/go-git/v6/plumbing"
 	"github.com/go-git/go-git/v6/plumbing/format/index"
 	"github.com/go-git/go-git/v6/storage/filesystem/dotgit"
 	"github.com/go-git/go-git/v6/utils/ioutil"
@@ -127,14 +128,43 @@ func (s *IndexStorage) Index() (i *index.Index, err error) {
 	return copyIndex(idx), nil
 }
 
-// copyIndex returns a shallow copy of the Index struct with its own
-// copy of the Entries slice, so that callers can append/remove entries
-// without affecting the cached copy. Individual *Entry pointers are
-// shared; this is safe because callers replace entries rather than
-// mutating them in place.
+// copyIndex returns a deep copy of idx: its own Entries slice, its own
+// Entry values (allocated in one block) and its own extension values.
+// Nothing reachable from the result is shared with the cached value, so
+// callers may edit entries in place (Worktree.Add, Index.SkipUnless do)
+// and drop the result without changing what the next Index call returns.
 func copyIndex(idx *index.Index) *index.Index {
 	cp := *idx
+
+	entries := make([]index.Entry, len(idx.Entries))
 	cp.Entries = make([]*index.Entry, len(idx.Entries))
-	copy(cp.Entries, idx.Entries)
+	for i, e := range idx.Entries {
+		entries[i] = *e
+		cp.Entries[i] = &entries[i]
+	}
+
+	if idx.Cache != nil {
+		cp.Cache = &index.Tree{Entries: append([]index.TreeEntry(nil), idx.Cache.Entries...)}
+	}
+
+	if idx.ResolveUndo != nil {
+		ru := &index.ResolveUndo{Entries: make([]index.ResolveUndoEntry, len(idx.ResolveUndo.Entries))}
+		for i, e := range idx.ResolveUndo.Entries {
+			ru.Entries[i].Path = e.Path
+			if e.Stages != nil {
+				ru.Entries[i].Stages = make(map[index.Stage]plumbing.Hash, len(e.Stages))
+				for k, v := range e.Stages {
+					ru.Entries[i].Stages[k] = v
+				}
+			}
+		}
+		cp.ResolveUndo = ru
+	}
+
+	if idx.EndOfIndexEntry != nil {
+		eoie := *idx.EndOfIndexEntry
+		cp.EndOfIndexEntry = &eoie
+	}
+
 	return &cp
 }
